@@ -1220,6 +1220,10 @@ func runC06(c *ctx) {
 	// (limit = Live), small (limit close to Live), large (limit = Live^2/MaxNodes small or 0 = unlimited second level).
 	var second []*c06job
 	tScreen := time.Now()
+	sc := c.scale // the screening runs one at a time (the log): the thorough tier gets 6 times the quick numbers, not 20
+	if sc > 6 {
+		sc = 6
+	}
 	for i, s := range specs {
 		if s.cfg.Size != 3 {
 			continue
@@ -1228,7 +1232,7 @@ func runC06(c *ctx) {
 		// the model budget (the screening only selects inputs; the kept ones are run again and judged like every other run)
 		kept, tries := 0, 0
 		seenIn := map[string]bool{}
-		for kept < 14*c.scale && tries < 250*c.scale {
+		for kept < 14*sc && tries < 250*sc {
 			tries++
 			p := tak.New(s.cfg)
 			for x, plies := 0, c.r.Intn(6); x < plies; x++ {
@@ -1279,11 +1283,12 @@ func runC06(c *ctx) {
 		}
 		c.stat("pn2_early_root_candidates", int64(tries))
 	}
+	c.stat("pn2_screen_early_ms", int64(time.Since(tScreen)/time.Millisecond))
 	// larger boards with the default reserves (one-sided oracle): ~30 children per node, so the threshold is passed after
 	// a few dozen expansions and the rest of the node budget is spent in second-level searches with real limits; most
 	// of these runs end `unknown`, what is compared are the numbers and counters.  The first-level limit must stay small:
 	// MaxNodes above 2*Live^2 means second-level searches WITHOUT a limit, which do not come back on these boards.
-	for kept, tries := 0, 0; kept < 40*c.scale && tries < 400*c.scale; tries++ {
+	for kept, tries := 0, 0; kept < 40*sc && tries < 400*sc; tries++ {
 		size := 4 + c.r.Intn(2)
 		ps, _ := randomGame(c.r, tak.Config{Size: size}, 2+c.r.Intn(16), []int{4, 2, 4, -1}[c.r.Intn(4)], false)
 		p := ps[len(ps)-1]
@@ -1297,12 +1302,13 @@ func runC06(c *ctx) {
 		case 1:
 			j.maxNodes = uint64(2400 + c.r.Intn(4000))
 		default:
-			j.maxNodes = uint64(6000 + c.r.Intn(14000))
+			j.maxNodes = uint64(6000 + c.r.Intn(4000))
 		}
 		j.preserve = c.r.Intn(2) == 0
 		if c.r.Intn(3) == 0 {
 			j.maxDepth = 2 + c.r.Intn(6)
 		}
+		c.stat("pn2_big_board_candidates", 1)
 		calls, searched, expanded := c06pn2Screen(j)
 		if calls == 0 || searched > c06MaxModelSearched/4 || expanded > c06MaxModelExpanded {
 			continue
